@@ -24,8 +24,9 @@ import (
 // that the zero-length fields of the templates in use do not explain is an ordinary violation (`fail:alloc`) — also
 // when some OTHER template in the cache has such fields.
 const (
-	allocBase     = 16384
-	allocPerOctet = 200
+	allocBase         = 16384
+	allocPerOctet     = 200
+	mapGrowthPerEntry = 256 // octets per cached template when a shard map grows (key string + Data + bucket overhead, doubled)
 )
 
 func allocVerdict(alloc uint64, addr, dg []byte, isIPFIX bool, zBefore int, cache interface{}) string {
@@ -33,6 +34,15 @@ func allocVerdict(alloc uint64, addr, dg []byte, isIPFIX bool, zBefore int, cach
 	lin := uint64(allocBase) + allocPerOctet*uint64(dgLen+24)
 	if alloc <= lin {
 		return ""
+	}
+	// a datagram that ANNOUNCES templates inserts into the shard maps; an insert into a map that already holds thousands of
+	// entries may double its bucket array — an allocation in proportion to what earlier datagrams made the cache hold,
+	// amortised over them (Go maps). Only such a datagram gets that allowance; one that announces nothing does not.
+	if announces(dg, isIPFIX) {
+		lin += mapGrowthPerEntry * uint64(cacheEntries(cache))
+		if alloc <= lin {
+			return ""
+		}
 	}
 	// the templates in use: in the cache before the decode (zBefore), in the cache after it, or announced — and
 	// possibly replaced again — inside the datagram itself
@@ -52,6 +62,42 @@ func allocVerdict(alloc uint64, addr, dg []byte, isIPFIX bool, zBefore int, cach
 		return fmt.Sprintf("fail:amplification %d bytes allocated for a %d-octet datagram (linear bound %d): a template it uses has %d zero-length fields, each decoded record pays for them without consuming an octet", alloc, dgLen, lin, z)
 	}
 	return fmt.Sprintf("fail:alloc %d bytes allocated for a %d-octet datagram (linear bound %d, zero-length fields in the templates it uses: %d)", alloc, dgLen, lin, z)
+}
+
+// announces: the datagram holds a template / options template set (walked by the declared set lengths)
+func announces(dg []byte, isIPFIX bool) bool {
+	for off := flowHdrLen(isIPFIX); off+4 <= len(dg); {
+		id := int(dg[off])<<8 | int(dg[off+1])
+		ln := int(dg[off+2])<<8 | int(dg[off+3])
+		if (isIPFIX && (id == 2 || id == 3)) || (!isIPFIX && (id == 0 || id == 1)) {
+			return true
+		}
+		if ln < 4 {
+			break
+		}
+		off += ln
+	}
+	return false
+}
+
+// cacheEntries: templates in the real cache
+func cacheEntries(c interface{}) int {
+	n := 0
+	switch m := c.(type) {
+	case ipfix.MemCache:
+		for _, sh := range m {
+			if sh != nil {
+				n += len(sh.Templates)
+			}
+		}
+	case netflow9.MemCache:
+		for _, sh := range m {
+			if sh != nil {
+				n += len(sh.Templates)
+			}
+		}
+	}
+	return n
 }
 
 func flowHdrLen(isIPFIX bool) int {
